@@ -624,6 +624,24 @@ if okr and raw_type(shared) == "table" then
 end
 """
 
+# re-bind the cached chunks of the sandbox implementation / built-in libraries
+# to a module-controlled environment through the loader's optional second
+# argument; the next set-up must not run in it
+PLANT_REBIND = """
+local T = setmetatable({}, { __index = _G })
+T.pairs = wrap(pairs); T.ipairs = wrap(ipairs); T.next = wrap(next)
+T.getmetatable = wrap(getmetatable); T.type = wrap(type)
+T.select = wrap(select); T.rawget = wrap(rawget); T.rawset = wrap(rawset)
+T.tostring = wrap(tostring); T.unpack = wrap(unpack)
+T.setmetatable = wrap(setmetatable); T.require = wrap(require)
+for _, name in raw_next, { "_sandbox_phase2", "_sandbox_phase1", "mw",
+                           "mw_text", "mw_title", "mw_language", "mw_html",
+                           "libraryUtil", "ustring:ustring" } do
+  raw_pcall(function() return package.loaders[2](name, T) end)
+  raw_pcall(function() return _new_loader(name, T) end)
+end
+"""
+
 
 def tamper_attacks():
     out = []
@@ -636,7 +654,8 @@ def tamper_attacks():
                 if k == 0 and pn != "G":
                     continue
                 for plant_name, plant in (("own", PLANT_OWN),
-                                          ("shared", PLANT_SHARED)):
+                                          ("shared", PLANT_SHARED),
+                                          ("rebind", PLANT_REBIND)):
                     body = TAMPER_BODY.replace("@@K@@", str(k)).replace(
                         "@@PUSH@@", push).replace("@@PLANT@@", plant).replace(
                         "@@DUMMIES@@",
@@ -990,7 +1009,9 @@ def run(run):
         "while the sandbox is set up and uses any Python callable it finds; "
         "and two-step histories in which a first invocation wraps the global "
         "helpers (in its own environment, or in the shared environment that "
-        "_lua_reset_env() hands out, including the names kept across resets), optionally disables the timeout setters and pushes 0-3 "
+        "_lua_reset_env() hands out, including the names kept across resets, or by "
+        "re-binding the cached set-up / library chunks to its own table through "
+        "the loader's environment argument), optionally disables the timeout setters and pushes 0-3 "
         "extra entries on the host's environment stack, followed by five "
         "further outermost invocations on the same and on a new page: "
         "no new or changed file, pages table byte-identical, context "
